@@ -266,7 +266,10 @@ type vfPair struct {
 	SrvErr error
 }
 
-const vfIOTimeout = 20 * time.Second
+// vfIOTimeout bounds every blocking call of a case. No passing path waits for it; it only ends cases on a tree that
+// stalls. It is generous because the checks must stay quiet on a machine that is busy with other work (a 20 s bound was
+// once exceeded by a healthy handshake while ~80 runnable processes competed for 16 cores, DESIGN.md 8.3).
+const vfIOTimeout = 45 * time.Second
 
 // vfNewPair wires a UClient and a Server over a fresh vfPipe. prep (optional) runs on the UConn before the handshake.
 func vfNewPair(ccfg *Config, id ClientHelloID, scfg *Config) *vfPair {
